@@ -17,6 +17,7 @@ type triIn struct {
 	Rebuild   int      `json:"rebuild,omitempty"`
 	RrRebuild int      `json:"rr_rebuild,omitempty"` // the roaring builder only: BuildIndexer() also after that many documents
 	Pre       bool     `json:"pre,omitempty"`        // the posting-list builders have produced an earlier generation (the same documents under other ids) and were Reset
+	Warm      int      `json:"warm,omitempty"`       // the posting-list indexes are built from a cache provider an earlier builder filled (eCase.Warm); roaring has no cache
 	Ac        bool     `json:"ac,omitempty"`         // field 1 is a pattern field in all three indexes (documents from acDocsQueries)
 }
 
@@ -122,6 +123,31 @@ func init() {
 				}
 				add(tAc)
 			}
+			// the posting-list indexes built from a cache provider that an earlier builder filled (the roaring index has no
+			// cache): conjunctions mixing an expression long enough to be cached with short ones, include and exclude
+			{
+				ints := func(k, off int) TV {
+					l := make([]TV, k)
+					for i := range l {
+						l[i] = tvInt("int", int64(off+i))
+					}
+					return tvSlice("[]int", l...)
+				}
+				docs := []eDoc{
+					{ID: 1, Cons: []eConj{{{F: 0, Inc: true, V: ints(6, 0)}, {F: 1, Inc: true, V: tvStr("sh")}}}},
+					{ID: 2, Cons: []eConj{{{F: 0, Inc: true, V: ints(6, 3)}, {F: 1, Inc: false, V: tvStr("bj")}}}},
+					{ID: 3, Cons: []eConj{{{F: 0, Inc: true, V: ints(2, 7)}}, {{F: 2, Inc: true, V: ints(5, 0)}, {F: 0, Inc: true, V: ints(1, 7)}, {F: 1, Inc: true, V: tvSlice("[]string", tvStr("sh"), tvStr("gz"))}}}},
+					{ID: -4, Cons: []eConj{{{F: 0, Inc: false, V: ints(5, 0)}, {F: 1, Inc: false, V: tvStr("sh")}}}},
+				}
+				var qs []eQuery
+				for _, a := range []int64{0, 4, 5, 7, 8, 9} {
+					for _, city := range []string{"sh", "bj", "gz"} {
+						qs = append(qs, eQuery{A: []eAssign{{F: 0, V: tvInt("int", a)}, {F: 1, V: tvStr(city)}}}, eQuery{A: []eAssign{{F: 0, V: tvInt("int", a)}, {F: 1, V: tvStr(city)}, {F: 2, V: tvInt("int", 2)}}})
+					}
+				}
+				add(triIn{Tri: true, NF: 3, Docs: docs, Qs: qs, Warm: 2})
+				add(triIn{Tri: true, NF: 3, Docs: docs, Qs: qs, Warm: 5})
+			}
 			for i := 0; i < n; i++ {
 				p := []string{"", "number", "strhash"}[i%3]
 				nf := 1 + r.Intn(4)
@@ -161,6 +187,8 @@ func init() {
 					t.Batch = 2 + r.Intn(3)
 				case r.Chance(30) && len(t.Docs) > 1:
 					t.Rebuild = 1 + r.Intn(len(t.Docs)-1)
+				case i%7 == 3: // served from a cache an earlier builder filled (every expression of two and more values makes its conjunction cacheable)
+					t.Warm = 1
 				}
 				add(t)
 			}
@@ -186,7 +214,7 @@ func init() {
 			// the unknown query field must use the same parser on the posting-list side when it happens
 			// to be created by a document: it never is (documents use fields < NF)
 			mk := func(kind string) (execResult, error) {
-				c := eCase{Kind: kind, Policy: "error", Parsers: parsers, Configs: configs, Docs: t.Docs, Queries: t.Qs, Batch: t.Batch, Rebuild: t.Rebuild}
+				c := eCase{Kind: kind, Policy: "error", Parsers: parsers, Configs: configs, Docs: t.Docs, Queries: t.Qs, Batch: t.Batch, Rebuild: t.Rebuild, Warm: t.Warm}
 				if t.Pre { // a reused builder: BuildIndex, Reset, AddDocument, BuildIndex (field configuration must survive Reset)
 					for _, d := range t.Docs {
 						c.Pre = append(c.Pre, eDoc{ID: d.ID + 100000, Cons: d.Cons})
